@@ -18,6 +18,7 @@ def run(ctx):
     n = 5000 if ctx.quick() else 60000
     tc.run_stream(ctx, "tensor-bw-naive", BW, n, backend="naive", exhaustive_ops=("max_bw", "flip_bw"))
     tc.optional_part(ctx, "scalar", "run_part", "C01")
+    tc.optional_part(ctx, "bwtables", "run_part")
     summ = tc.optional_part(ctx, "progcheck", "run_mode", "grad", 200 if ctx.quick() else 4000)
     if summ is not None:
         ctx.cov["program_level_gradcheck"] = summ
